@@ -270,6 +270,7 @@ class MList(SList):
 
     def havoc(self, interp, tag):
         self.cache = {}
+        self.aux = {}          # measures (pyvc.texts) describe the old contents
         self.version += 1
         n = interp.st.fresh_int('%s.len@%s' % (self.uid, tag))
         interp.st.assume(n >= 0)
@@ -285,6 +286,7 @@ class MList(SList):
             v = interp.resolve(v)
         self._ensure_shape(interp, v)
         self.cache = {}
+        n = self.length
         self.version += 1
         at = z3.simplify(self.base + self.length)
         _enc = _encode(interp, self.shape, v)
@@ -294,6 +296,7 @@ class MList(SList):
         self.tail.append(v)
 
     def insert(self, interp, pos, v):
+        self.aux = {}
         if not (isinstance(pos, int) and pos == 0):
             raise Unsupported('insert at a position other than 0 in a symbolic list')
         self._ensure_shape(interp, v)
@@ -352,6 +355,7 @@ class MList(SList):
         raise Unsupported('pop at a symbolic position')
 
     def delete_first(self, interp):
+        self.aux = {}
         self.cache = {}
         self.version += 1
         self.base = z3.simplify(self.base + 1)
@@ -360,6 +364,7 @@ class MList(SList):
         self._rebase(interp)
 
     def extend(self, interp, other):
+        self.aux = {}
         if isinstance(other, (list, tuple)):
             for x in other:
                 self.append(interp, x)
@@ -393,6 +398,7 @@ class MList(SList):
             self.append(interp, x)
 
     def setitem(self, interp, idx, v):
+        self.aux = {}
         st = interp.st
         t = to_z3(idx)
         if not st.fork(wrap(z3.And(t >= 0, t < self.length))):
@@ -414,6 +420,7 @@ class MList(SList):
         c = MList(interp, interp.st.fresh_name(self.uid + '.copy'), None, self.length)
         c.shape = self.shape
         c.arrs = dict(self.arrs)
+        c.aux = dict(self.aux)
         c.base = self.base
         c.is_deque = self.is_deque
         c.base_empty, c.base_len, c.tail = self.base_empty, self.base_len, list(self.tail)
@@ -440,6 +447,7 @@ def method(interp, xs, name, args, kwargs):
     if name == 'clear':
         xs.length = z3.IntVal(0)
         xs.cache = {}
+        xs.aux = {}
         xs.version += 1
         xs.new_base()
         xs.base_empty = True
@@ -519,6 +527,11 @@ def join(interp, sep, xs):
         empty = xs.base_len == 0
     from . import strings
     for x in xs.tail:
+        if isinstance(sep, str) and sep == '':
+            # no separator: the measure of an empty list is '' and '' + x == x, no case distinction needed
+            acc = to_z3(strings.concat(interp, wrap(acc), x))
+            empty = z3.BoolVal(False)
+            continue
         with_sep = strings.concat(interp, strings.concat(interp, wrap(acc), sep), x)
         acc = z3.simplify(z3.If(empty, to_z3(x), to_z3(with_sep)))
         empty = z3.BoolVal(False)
